@@ -104,6 +104,20 @@ fn take_task(eager_only: bool) -> Option<PoolTask> {
 
 /// A point where the real program would let other threads make progress: every facade call.
 pub fn yield_point() {
+    // a command that never returns Pending (an endless stream of ready items) must still end:
+    // count yield points and unwind out of the facade call when the budget is exceeded
+    let over = with(|s| {
+        s.yields += 1;
+        if s.yields > s.yield_budget && !s.budget_exceeded {
+            s.budget_exceeded = true;
+            true
+        } else {
+            false
+        }
+    });
+    if over {
+        panic!("simulator: yield budget exceeded (unbounded work)");
+    }
     while let Some(t) = take_task(true) {
         (t.run)();
     }
@@ -191,6 +205,10 @@ pub fn block_on<F: Future>(fut: F) -> End<F::Output> {
     let mut fut = pin!(fut);
     // the budget is per simulated process (one block_on), the counter in Sim is per run
     let mut local_steps: u64 = 0;
+    with(|s| {
+        s.yields = 0;
+        s.budget_exceeded = false;
+    });
     let end = loop {
         if with(|s| s.crashed) {
             break End::Crashed;
